@@ -9,6 +9,7 @@ import (
 	"github.com/google/uuid"
 	"github.com/wrgl/wrgl/pkg/ref"
 	"github.com/wrgl/wrgl/pkg/sqlutil"
+	"github.com/wrgl/wrgl/pkg/verifhook"
 )
 
 var CreateTableStmts = []string{
@@ -51,6 +52,9 @@ func NewStore(db *sql.DB) *Store {
 }
 
 func (s *Store) Set(key string, sum []byte) error {
+	if err := verifhook.BeforeWrite("ref-set"); err != nil {
+		return err
+	}
 	_, err := s.db.Exec(`INSERT INTO refs (name, sum) VALUES (?, ?) ON CONFLICT (name) DO UPDATE SET sum=excluded.sum`, key, sum)
 	return err
 }
@@ -65,6 +69,9 @@ func (s *Store) Get(key string) ([]byte, error) {
 }
 
 func (s *Store) SetWithLog(key string, sum []byte, rl *ref.Reflog) error {
+	if err := verifhook.BeforeWrite("ref-setwithlog"); err != nil {
+		return err
+	}
 	return sqlutil.RunInTx(s.db, func(tx *sql.Tx) error {
 		row := tx.QueryRow(`SELECT sum FROM refs WHERE name = ?`, key)
 		oldSum := make([]byte, 16)
@@ -98,6 +105,9 @@ func (s *Store) SetWithLog(key string, sum []byte, rl *ref.Reflog) error {
 }
 
 func (s *Store) Delete(key string) error {
+	if err := verifhook.BeforeWrite("ref-delete"); err != nil {
+		return err
+	}
 	return sqlutil.RunInTx(s.db, func(tx *sql.Tx) error {
 		if _, err := tx.Exec(`DELETE FROM reflogs WHERE ref = ?`, key); err != nil {
 			return err
@@ -172,6 +182,9 @@ func (s *Store) FilterKey(prefixes []string, notPrefixes []string) (keys []strin
 }
 
 func (s *Store) Rename(oldKey, newKey string) (err error) {
+	if err := verifhook.BeforeWrite("ref-rename"); err != nil {
+		return err
+	}
 	return sqlutil.RunInTx(s.db, func(tx *sql.Tx) error {
 		row := tx.QueryRow(`SELECT sum FROM refs WHERE name = ?`, oldKey)
 		sum := make([]byte, 16)
@@ -192,6 +205,9 @@ func (s *Store) Rename(oldKey, newKey string) (err error) {
 }
 
 func (s *Store) Copy(srcKey, dstKey string) (err error) {
+	if err := verifhook.BeforeWrite("ref-copy"); err != nil {
+		return err
+	}
 	return sqlutil.RunInTx(s.db, func(tx *sql.Tx) error {
 		if _, err := tx.Exec(
 			`INSERT INTO refs (name, sum) VALUES (?, (SELECT sum FROM refs WHERE name = ?))`,
